@@ -13,7 +13,11 @@ Four machines share the interleaving semantics `Machine / stepAt / Step / Reach`
 * `LockM α`  — threads run straight-line programs over `acq l | rel l | emit x | copy n |
                advance | skip`.  The per-method programs are REGENERATED from the Go AST
                (`Facts.*.lockProgs`, see `ofEvents`); `writerProg`, `readerProg` are the two
-               critical sections the theorems about Write / Read talk about.
+               critical sections the theorems about Write / Read talk about.  `expandWrite`
+               reads the section of Write after the handshake, extracted WITH its loops
+               (`Facts.*.lockWriteSections`), as a program over the records of a payload: what
+               is inside a loop happens once per record.  `heldAtIO` reads off which mutexes a
+               goroutine parked in a transport read or write holds.
 * `HsM`      — `handshakeContext`: fast path on the atomic status, `handshakeMutex`, re-check
                of `handshakeErr` / status under the mutex, `in`, one call of `handshakeFn`.
                `beforeLastClose` / `heldAtReads` read off the extracted programs which mutexes
@@ -201,14 +205,67 @@ def tailAfterHandshake (evs : List (Nat × Nat)) : List (Nat × Nat) :=
     | e :: r => go (e :: acc) r
   (go [] evs).filter (fun e => e.1 ≤ 2 || e.1 == 7)
 
-/-- expand the extracted application-data section of `Write` for a concrete payload: the one
-transport-write event inside the record loop becomes one `emit` per record -/
-def expandWrite {α : Type} (payload : List α) : List (Nat × Nat) → List (Act α)
+/-- mutexes held at some transport read (kind 9) OR transport write (kind 2): a goroutine can be
+parked there, holding them, for as long as the peer neither sends nor reads (a full socket
+buffer, a synchronous pipe).  The deadline setters and Close are what the net.Conn contract
+offers to get such a goroutine back, so they must not need any of these mutexes. -/
+def heldAtIO : List Nat → List (Nat × Nat) → List Nat
+  | _, [] => []
+  | held, (0, l) :: r => heldAtIO (l :: held) r
+  | held, (1, l) :: r => heldAtIO (held.erase l) r
+  | held, (2, _) :: r => held ++ heldAtIO held r
+  | held, (9, _) :: r => held ++ heldAtIO held r
+  | held, _ :: r => heldAtIO held r
+
+/-! ### the application-data section of Write, with its loops
+
+`Facts.*.lockWriteSections` is the part of `Write` / `WriteTo` after the handshake call, walked
+with loop markers: `(10,_)` loop begin, `(11,_)` loop end. -/
+
+/-- a section without its loop markers (what the plain walk of `lockProgs` sees) -/
+def stripLoops (evs : List (Nat × Nat)) : List (Nat × Nat) := evs.filter (fun e => e.1 < 10)
+
+/-- mutex, transport-write and loop events of a section -/
+def sectionEvents (evs : List (Nat × Nat)) : List (Nat × Nat) :=
+  evs.filter (fun e => e.1 ≤ 2 || e.1 == 10 || e.1 == 11)
+
+/-- split `body ++ [(11,_)] ++ rest` at the loop end matching an already consumed loop begin
+(`depth` = number of inner loops still open) -/
+def splitLoop : Nat → List (Nat × Nat) → List (Nat × Nat) × List (Nat × Nat)
+  | _, [] => ([], [])
+  | d, (10, x) :: r => let (b, t) := splitLoop (d + 1) r; ((10, x) :: b, t)
+  | 0, (11, _) :: r => ([], r)
+  | d + 1, (11, x) :: r => let (b, t) := splitLoop d r; ((11, x) :: b, t)
+  | d, e :: r => let (b, t) := splitLoop d r; (e :: b, t)
+
+/-- one iteration of a loop of the write section for the record `x`: the transport write hands
+`x` to the transport; markers of inner loops are dropped (an inner loop is part of the iteration) -/
+def iteration {α : Type} (x : α) : List (Nat × Nat) → List (Act α)
   | [] => []
-  | (0, l) :: r => .acq l :: expandWrite payload r
-  | (1, l) :: r => .rel l :: expandWrite payload r
-  | (2, _) :: r => payload.map .emit ++ expandWrite payload r
-  | _ :: r => .skip :: expandWrite payload r
+  | (0, l) :: r => .acq l :: iteration x r
+  | (1, l) :: r => .rel l :: iteration x r
+  | (2, _) :: r => .emit x :: iteration x r
+  | (10, _) :: r => iteration x r
+  | (11, _) :: r => iteration x r
+  | _ :: r => .skip :: iteration x r
+
+/-- expand an extracted application-data section of `Write` for a concrete payload (the list of
+its records): a LOOP of the section runs once per record — what is inside the loop (a transport
+write, but also any `Lock`/`Unlock`) happens per record, what is outside happens once per call; a
+transport write outside every loop hands over all records at once -/
+def expandWriteF {α : Type} (payload : List α) : Nat → List (Nat × Nat) → List (Act α)
+  | 0, _ => []
+  | _ + 1, [] => []
+  | f + 1, (0, l) :: r => .acq l :: expandWriteF payload f r
+  | f + 1, (1, l) :: r => .rel l :: expandWriteF payload f r
+  | f + 1, (2, _) :: r => payload.map .emit ++ expandWriteF payload f r
+  | f + 1, (10, _) :: r =>
+    payload.flatMap (fun x => iteration x (splitLoop 0 r).1) ++ expandWriteF payload f (splitLoop 0 r).2
+  | f + 1, (11, _) :: r => expandWriteF payload f r
+  | f + 1, _ :: r => .skip :: expandWriteF payload f r
+
+def expandWrite {α : Type} (payload : List α) (evs : List (Nat × Nat)) : List (Act α) :=
+  expandWriteF payload (evs.length + 1) evs
 
 /-- `Conn.Write` after the handshake: `c.out.Lock(); defer c.out.Unlock(); writeRecordLocked`
 (one `emit` per record of the payload) -/
